@@ -11,6 +11,7 @@
 #include <stdexcept>
 #include <cmath>
 #include "awkward/Content.h"
+#include "awkward/type/Type.h"
 #include "awkward/Index.h"
 #include "awkward/Slice.h"
 #include "awkward/Reducer.h"
@@ -228,6 +229,7 @@ static void run() {
     else if (c == "mergemany") { int64_t k = nint(); ContentPtrVec cs((size_t)k); for (int64_t j = k - 1; j >= 0; j--) cs[(size_t)j] = pop(); ContentPtr a = pop(); stack.push_back(a.get()->mergemany(cs)); }
     else if (c == "fillna") { ContentPtr v = pop(); ContentPtr a = pop(); stack.push_back(a.get()->fillna(v)); }
     else if (c == "simplify") { ContentPtr a = pop(); stack.push_back(a.get()->shallow_simplify()); }
+    else if (c == "typestr") { ContentPtr a = pop(); util::TypeStrs ts; std::string t = a.get()->type(ts).get()->tostring(); printf("OK \"%s\"\n", t.c_str()); fflush(stdout); _Exit(0); }
     else if (c == "formjson") { ContentPtr a = pop(); std::string j = a.get()->form(true).get()->tojson(false, false); printf("OK %s\n", j.c_str()); fflush(stdout); _Exit(0); }
     else if (c == "viewfrom") { int64_t k = nint(); ContentPtr x = pop();      // the same lists from list k on, as a view into the same offsets buffer
       if (ListOffsetArray64* r = dynamic_cast<ListOffsetArray64*>(x.get())) stack.push_back(std::make_shared<ListOffsetArray64>(noid, noparams, r->offsets().getitem_range_nowrap(k, r->offsets().length()), r->content()));
